@@ -145,15 +145,20 @@ def handlePayload (codec : PyVal → String → Option Bytes) (body : PyBody) (p
     | some b => .ok (b, props')
     | none => .error .encode
 
-/-- `Basic.publish` (after argument validation): the caller's dict as it is afterwards, and the
-    frames handed to `write_frames` -/
-def publish17 (maxF : Int) (codec : PyVal → String → Option Bytes) (body : PyBody) (props : Dict) :
-    Except PubErr (Dict × List CFrame) :=
-  match handlePayload codec body props with
+/-- `Basic.publish` (after argument validation; `none` = `properties=None`).  `properties or {}`: a
+    `None` or *empty* dict of the caller is replaced by a fresh dict, so only a non-empty caller dict
+    is written to (it receives the default `content_encoding`).  Returns the caller's dict as it is
+    afterwards and the frames handed to `write_frames`. -/
+def publish17 (maxF : Int) (codec : PyVal → String → Option Bytes) (body : PyBody) (props : Option Dict) :
+    Except PubErr (Option Dict × List CFrame) :=
+  match handlePayload codec body (props.getD []) with
   | .error e => .error e
   | .ok (b, props') =>
     if propsAccepted props' then
-      .ok (props', .publish :: .header b.length props' :: (splitBody maxF b).map .body)
+      let caller := match props with
+        | some d => if d.isEmpty then some d else some props'
+        | none => none
+      .ok (caller, .publish :: .header b.length props' :: (splitBody maxF b).map .body)
     else .error .badProperty
 
 inductive BodyRes where
